@@ -113,6 +113,18 @@ class SNum:
 
     __rmul__ = __mul__
 
+    def __truediv__(self, o):
+        o = self._coerce(o)
+        if o is None or o.other:
+            return NotImplemented
+        if o.c == 0:
+            raise ZeroDivisionError
+        return SNum(self.c / (o.c * o.n), self.n * o.n, self.other)
+
+    def __rtruediv__(self, o):
+        o = self._coerce(o)
+        return NotImplemented if o is None else o.__truediv__(self)
+
     def __neg__(self):
         return SNum(-self.c, self.n, self.other)
 
@@ -127,14 +139,12 @@ class SNum:
 
     def __str__(self):            # sympy's str
         if self.other:
-            return f"{self.c}*{self.other}" if self.c != 1 else self.other
+            return self.other if self.c == 1 else f"{self.c}*{self.other}"
         if self.n == 1:
             return str(self.c)
-        if self.c == 1:
-            return f"sqrt({self.n})"
-        return f"{self.c.numerator if self.c.denominator == 1 else self.c}*sqrt({self.n})" \
-            if self.c.denominator == 1 else f"{self.c.numerator}*sqrt({self.n})/{self.c.denominator}".replace("1*", "", 1) \
-            if self.c.numerator == 1 else f"{self.c.numerator}*sqrt({self.n})/{self.c.denominator}"
+        num, den = self.c.numerator, self.c.denominator
+        text = f"sqrt({self.n})" if abs(num) == 1 else f"{abs(num)}*sqrt({self.n})"
+        return ("-" if num < 0 else "") + text + (f"/{den}" if den != 1 else "")
 
     __repr__ = __str__
 
@@ -184,6 +194,9 @@ class SNum:
 
     def sx_term(self):
         return T("sym", f"<{self}>")
+
+    def sx_str(self, sx):
+        return str(self)
 
 
 class Ordered(Rec):
@@ -297,13 +310,14 @@ def tensor_names_rec():
                sym_orb_denom="Q")
 
 
-def str_hook(sx, a, kw):
-    """str(record) runs the class's own __str__."""
-    if len(a) == 1 and isinstance(a[0], Rec) and a[0].cls:
-        m = sx.find_method(a[0].cls, "__str__")
-        if m is not None:
-            from ..symex import Func
-            return sx._invoke(Func(m[0], [], m[0]._module, m[0]._qual, bound=a[0]), [], {}, None)
+def fields_hook(sx, a, kw):
+    """dataclasses.fields(C): one record per annotated field of the class, in order."""
+    from ..symex import ClassRef
+    import ast
+    if len(a) == 1 and isinstance(a[0], ClassRef):
+        c = a[0].module.classes[a[0].qual]
+        return tuple(Rec(None, f"field {st.target.id}", name=st.target.id) for st in c.body
+                     if isinstance(st, ast.AnnAssign) and isinstance(st.target, ast.Name))
     return NotImplemented
 
 
@@ -325,7 +339,8 @@ def permutation(p, q):
 
 
 def make_sx(ctx, what, hooks=None, **kw):
-    hk = {"tensor_names": tensor_names_rec(), "str": str_hook,
+    hk = {"tensor_names": tensor_names_rec(), "fields": fields_hook,
+          "S": Rec(None, "S", Half=SNum(Fraction(1, 2)), One=SNum(1), Zero=SNum(0), NegativeOne=SNum(-1)),
           "term_memory_requirements": lambda sx, a, k: scaling_component(0, 0, 0, 0)}
     hk.update(hooks or {})
     return Symex(ctx.model, inline=lambda q: True, hooks=hk, what=what, **kw)
